@@ -13,7 +13,8 @@ SPEC = os.path.join(engine.VERIF, 'specs', 'tendermint')
 
 INVARIANTS = ['TypeOK', 'Agreement', 'ValidityOfDecided', 'CommitHasSingleRoundQuorum', 'NoRuleBroken',
               'LockJustified', 'NoEquivocationSent']
-PROPERTIES = ['DecAppendOnly', 'UnlockOnlyOnLaterPolka']
+PROPERTIES = ['DecAppendOnly', 'UnlockOnlyOnLaterPolka', 'ReplayRestoresVotes']
+ACTION_GOALS = {'NoUnlock', 'NoRelock', 'NoRestartMidHeight', 'ReplayRestores', 'ReplayRestoresVotes'}
 
 
 def proposer_tables(ctx, power, max_h, max_r):
@@ -39,7 +40,7 @@ class Cfg:
     """One TLC configuration of Tendermint.tla."""
 
     def __init__(self, name, power, byz, max_round=1, max_height=1, nbyz=1, budget=0, crashes=0, crash_set=(),
-                 own_first=True, useful_only=True, invariants=None, properties=None, constraint=True, extra_defs=''):
+                 own_first=True, useful_only=True, sync=False, torn=False, spec='Spec', deadlock=False, invariants=None, properties=None, constraint=True, extra_defs=''):
         self.name = name
         self.power = power
         self.byz = sorted(byz)
@@ -51,6 +52,10 @@ class Cfg:
         self.crash_set = sorted(crash_set)
         self.own_first = own_first
         self.useful_only = useful_only
+        self.sync = sync
+        self.torn = torn
+        self.spec = spec
+        self.deadlock = deadlock
         self.invariants = INVARIANTS if invariants is None else invariants
         self.properties = PROPERTIES if properties is None else properties
         self.constraint = constraint
@@ -80,14 +85,15 @@ class Cfg:
                self.extra_defs, '====']
         with open(os.path.join(d, 'MC_gen.tla'), 'w') as f:
             f.write('\n'.join(mod) + '\n')
-        cfg = ['SPECIFICATION Spec', 'CONSTANTS', '  N = %d' % n, '  Power <- MCPower',
+        cfg = ['SPECIFICATION ' + self.spec, 'CONSTANTS', '  N = %d' % n, '  Power <- MCPower',
                '  Byz = {%s}' % ', '.join(map(str, self.byz)), '  MaxRound = %d' % self.max_round,
                '  MaxHeight = %d' % self.max_height, '  LiveProp <- MCLive', '  StaleProp <- MCStale',
                '  NByzVals = %d' % self.nbyz, '  ByzBudget <- MCBudget', '  MaxCrashes = %d' % self.crashes,
                '  CrashSet = {%s}' % ', '.join(map(str, self.crash_set)),
                '  OwnFirst = %s' % ('TRUE' if self.own_first else 'FALSE'),
                '  UsefulOnly = %s' % ('TRUE' if self.useful_only else 'FALSE'),
-               'VIEW view', 'CHECK_DEADLOCK FALSE']
+               '  Sync = %s' % ('TRUE' if self.sync else 'FALSE'), '  Torn = %s' % ('TRUE' if self.torn else 'FALSE'),
+               'VIEW view', 'CHECK_DEADLOCK %s' % ('TRUE' if self.deadlock else 'FALSE')]
         if self.constraint:
             cfg.append('CONSTRAINT Bounded')
         if self.invariants:
@@ -140,10 +146,26 @@ def simulate(ctx, cfg, num, depth, seed, timeout=600):
     return r, out
 
 
+def trace_of(cfg, r, tag):
+    """Convert a TLC counterexample (list of (label, state)) into a replay trace."""
+    steps = []
+    for label, st in r.trace[1:]:
+        act = st.get('act')
+        if not act:
+            continue
+        post = dict(st)
+        post.pop('act', None)
+        post.pop('net', None)
+        steps.append({'a': act[0], 'args': act[1:], 'post': post})
+    return {'id': '%s-%s' % (tag, cfg.name), 'cfg': cfg.driver_cfg(), 'steps': steps}
+
+
 def witness(ctx, cfg, goal_inv, timeout=600, workers=None):
     """Shortest behaviour violating `goal_inv` (a reachability goal stated as a negated invariant)."""
+    is_action = goal_inv in ACTION_GOALS
     c = Cfg(cfg.name + '-w-' + goal_inv, cfg.power, cfg.byz, cfg.max_round, cfg.max_height, cfg.nbyz, cfg.budget,
-            cfg.crashes, cfg.crash_set, cfg.own_first, cfg.useful_only, invariants=[goal_inv], properties=[],
+            cfg.crashes, cfg.crash_set, cfg.own_first, cfg.useful_only, sync=cfg.sync, torn=cfg.torn,
+            invariants=[] if is_action else [goal_inv], properties=[goal_inv] if is_action else [],
             constraint=cfg.constraint, extra_defs=cfg.extra_defs)
     c.tables = cfg.tables
     d = gen_dir(ctx, c)
